@@ -449,8 +449,13 @@ def model_disagrees_ok(ctx, schema, value, outcome, history, label):
     ctx.count("compare.model_consulted")
     if sut.accepted(outcome) in allowed or outcome not in ("ok", "ValidationError", "TypeError"):
         return True
+    # decide again, on deep copies: a witness that does not survive that is the harness's own doing
+    again = refmodel.verdicts(copy.deepcopy(schema), copy.deepcopy(value), copy.deepcopy(schema), curated=gv.CURATED)
+    if sut.accepted(outcome) in again:
+        ctx.count("compare.model_verdict_not_reproducible")
+        return True
     ctx.witness("verdict_not_of_current_configuration",
-                {"spec0": history["spec0"], "steps": history["steps"], "value": value},
+                {"spec0": history["spec0"], "steps": history["steps"], "value": value, "schema_judged": schema},
                 f"after {label}: live element (and a fresh twin) -> {outcome}, but the current configuration "
                 f"{str(schema)[:300]} means {sorted(allowed)}")
     return False
